@@ -110,7 +110,50 @@ def run(ctx):
             r2.ok(f, "sign-test", "sign bit of the first octet is tested; that edge sets errno = ERANGE and returns -1", found.term.get("line"))
         else:
             r2.bad(f, "sign-test", "the sign-bit test does not lead to errno = ERANGE and a negative return", found.term.get("line"))
-    return [r1, r2]
+    return [r1, r2, r16_3(prog)]
+
+
+CALLER_FAMILY = re.compile(r"^asn_u?(long|imax|max|int64|int32|uint64|uint32)2INTEGER$")
+
+
+def r16_3(prog, rid="R16.3"):
+    """Callers of the *2INTEGER helpers keep the signedness of the value.  At every call of asn_[u]long2INTEGER /
+    asn_[iu]max2INTEGER outside the helper family itself, the value argument is not an implicit conversion that changes
+    signedness at equal width -- unless the call sits under a branch on `field_unsigned` (the native codecs keep unsigned
+    values in a long and say so in the specifics) or under a comparison of the converted variable."""
+    r = Rule(rid, "values handed to the *2INTEGER helpers keep their signedness (no implicit signed<->unsigned conversion at the call)", floor=8)
+    for f in sorted(prog.funcs.values(), key=lambda f: f.key):
+        n = 0
+        for b, i, e in sorted(f.calls(), key=lambda z: z[2].get("line") or 0):
+            if not CALLER_FAMILY.match(e.get("callee") or "") or len(e["args"]) < 2:
+                continue
+            n += 1
+            key = "%s#%d" % (e["callee"], n)
+            a = e["args"][1]["tree"]
+            t = a
+            while isinstance(t, list) and t and t[0] in ("cast", "decay", "stmtexpr"):
+                t = t[-1]
+            if not (isinstance(t, list) and t and t[0] == "iconv" and t[3] == t[4] and t[5] != t[6]):
+                r.ok(f, key, "argument has the parameter's signedness", e["line"], nontrivial=False)
+                continue
+            vars_ = {x[1] for x in walk(t) if x[0] == "var"}
+            guarded = False
+            for d in f.dominators().get(b.id, ()):
+                tb = f.blocks[d]
+                if not tb.term or "cond" not in tb.term:
+                    continue
+                ct = tb.term["cond"].get("full_tree") or tb.term["cond"]["tree"]
+                if any(x[0] == "member" and x[2] == "field_unsigned" for x in walk(ct)):
+                    guarded = True
+                c = strip_casts(tb.term["cond"]["tree"])
+                if isinstance(c, list) and c and c[0] == "bin" and c[1] in ("<", "<=", ">", ">=") and ({x[1] for x in walk(c) if x[0] == "var"} & vars_):
+                    guarded = True
+            if guarded:
+                r.ok(f, key, "sign-changing conversion under a test of field_unsigned / a range test of the value", e["line"])
+            else:
+                r.bad(f, key, "`%s` is converted implicitly from %s to %s at the call: values with the top bit set change sign (a negative "
+                              "enumeration item becomes 2^64-n, a large unsigned becomes negative)" % (tree_text(t[7]), t[1], t[2]), e["line"])
+    return r
 
 
 def thorough(ctx):
